@@ -5,6 +5,17 @@ HERE = os.path.dirname(os.path.dirname(os.path.abspath(__file__)))
 ids = [json.loads(l)["id"] for l in open(os.path.join(HERE, "properties.jsonl"))]
 
 CLAIMS = {
+ "C14": dict(
+   text="Core stack proved for all field values and payload lengths: Ethernet, 802.1Q, ARP, IPv4, UDP, TCP, ICMP echo - pack() "
+        "equals the RFC layout with derived length fields, the checksum routine is applied to exactly the RFC-prescribed bytes "
+        "(IPv4 header with zero checksum field; pseudo-header ++ UDP/TCP segment; ICMP message) and its result lands in the "
+        "field, parse(pack()) restores every field and the payload, re-pack reproduces the bytes. packet_utils.checksum is "
+        "proved for buffers of ANY length < 2^17, even and odd (loop invariant over ghost word sums, fold/byte-swap lemma): data "
+        "+ checksum sums to 0 in one's complement arithmetic. Other protocols and exact equality with an independent RFC 1071 "
+        "implementation: bounded stand-ins.",
+   note="trusted: pyvc, z3/cvc5, struct/array/ntohs axioms (little-endian host), RFC layouts from memory. 12 further "
+        "protocols bounded only; DHCP/DNS serialisation broken on this tree (known findings).",
+   ref="7/C14"),
  "C13": dict(
    text="One contract per request handler of the software switch, request fields symbolic, `raises` empty: echo, barrier, "
         "get/set config, features, queue config, vendor, hello, table/port/queue/aggregate/flow statistics, unknown statistics "
